@@ -118,6 +118,10 @@ def panel_transformers():
     add("sax", lambda: SAX(word_length=4, alphabet_size=3, window_size=6), multivariate=False)
     add("interval_segmenter", lambda: IntervalSegmenter(3), multivariate=False)
     add("random_interval_segmenter", lambda: RandomIntervalSegmenter(n_intervals=3, random_state=0), multivariate=False)
+    # the number of intervals itself drawn at random (from the seeded generator)
+    add("random_interval_segmenter_rand", lambda: RandomIntervalSegmenter(n_intervals="random", random_state=0), multivariate=False)
+    add("random_interval_features_rand", lambda: RandomIntervalFeatureExtractor(n_intervals="random", random_state=0),
+        multivariate=False)
     add("sliding_segmenter", lambda: SlidingWindowSegmenter(window_length=3), multivariate=False)
     add("random_interval_features", lambda: RandomIntervalFeatureExtractor(n_intervals=3, random_state=0),
         multivariate=False)
